@@ -93,8 +93,10 @@ CLAIMED = {
 
 # sentences added to a claim after its first version (rules added later); appended to the claim text
 EXTRA = {
+    "C07": "Also decided: every formatted element is printed into a buffer large enough for its widest rendering plus the terminator (IX double format included), and every formatted writer starts a new line on the running element ordinal modulo the column count the reader assumes for that type (the unblocked CHAR writer: the block size is a multiple of the column count).",
+    "C10": "Also decided: the index list ExtESmry::loadData hands to load_esmry together with the request vector (used there as request[list[n]]) holds iteration ordinals - a zero-initialised counter appended without side effect and incremented exactly once, unconditionally, per request entry.",
     "C03": "Also decided: the next-step constructor that takes an end time differs from the one that does not in nothing but m_end_time (the last state of a schedule is built without one); where an update method installs a new value only if it compares different (Well::update*, Group::updateProduction, GuideRateConfig::update_model), the operator== of that class compares every data member; a local variable named after a record item is initialised from the item of that name.",
-    "C13": "Also decided: make_grid_units, EclipseGrid::save and the EGRID loader map the grid length-unit names METRES/FEET/CM to the same unit system.",
+    "C13": "Also decided: make_grid_units, EclipseGrid::save and the EGRID loader map the grid length-unit names METRES/FEET/CM to the same unit system; the NNC1/NNC2 cell numbers that save() stores as global index + 1 are decoded by EclIO::EGrid as (element - 1) through a parameter of kind global, never active (kinds derived from which ACTNUM map a parameter subscripts and which bound it is compared with).",
     "C18": "Also decided: an empty or cleared match is no set at all (MatchingEntities never keeps an empty-but-present set), so that false sub-conditions contribute no set to later unions and intersections.",
     "C17": "Also decided: every scalar (reduction) function - SUM, PROD, AVEA, AVEG, AVEH, MAX, MIN, NORM1, NORM2, NORMI - computes its documented formula over the defined values (canonical expression trees including the fold's initial value and step).",
     "C04": "Also decided (shared with C03): a local variable named after a record item is initialised from the item of that name (numbered siblings K1/K2, I1/I2 included).",
